@@ -93,7 +93,7 @@ Proof.
   specialize (A I). unfold ptr_ok in A.
   destruct (to_be 2 (N.lor 49152 t)) as [|b1 [|b2 [|]]]; try discriminate.
   exists b1, b2. repeat (apply andb_true_iff in A as [A ?]).
-  repeat split; try lia. reflexivity.
+  repeat split; try lia; try reflexivity.
 Qed.
 
 (** Name.decode on a well-shaped name *)
@@ -188,6 +188,7 @@ Qed.
 (** ------------------------------------------------------------------ Name.encode writes such a name --- *)
 
 Lemma enc_labels_sound c M s : forall ls pos d pend b d',
+  Forall (fun l => 1 <= blen l) ls ->
   enc_labels c ls pos (pend ++ d) = Ok (b, d') ->
   (forall k o, In (k, o) pend -> (length ls < length k)%nat) ->
   dict_inv M s d -> s <= pos -> at_ M pos b ->
@@ -196,40 +197,69 @@ Lemma enc_labels_sound c M s : forall ls pos d pend b d',
     nbe M s pos ls (pos + blen b) /\
     (forall k o, In (k, o) added -> o < 16384 /\ s <= o /\ o < pos + blen b /\ k <> [] /\ nbe M s o k (pos + blen b)).
 Proof.
-  induction ls as [|l r IH]; intros pos d pend b d' E PL DI SP A.
-  - cbn in E. inversion E; subst. exists []. repeat split; [|intros k o []].
+  induction ls as [|l r IH]; intros pos d pend b d' NEL E PL DI SP A.
+  - cbn in E. inversion E; subst. exists []. split; [reflexivity|]. split; [|intros k o []].
     change (blen [0]) with 1. constructor. exact A.
-  - cbn [enc_labels] in E.
+  - inversion NEL as [|? ? L1 NELr]; subst. cbn [enc_labels] in E.
     destruct (if c then lookup (pend ++ d) (l :: r) else None) as [off|] eqn:LK.
     + (* a compression pointer *)
       destruct c; [|discriminate]. rewrite lookup_skip in LK by exact PL.
       apply lookup_In in LK. destruct (DI _ _ LK) as (O14 & Os & _ & q' & NB).
       destruct (ptr_bytes off O14) as (b1 & b2 & PB & _ & _ & _ & V).
       destruct (N.lor 49152 off <? 65536) eqn:VV; [|lia]. inversion E; subst b d'; clear E.
-      exists []. repeat split; [|intros k o []].
-      rewrite PB. change (blen [b1; b2]) with 2. rewrite <- PB in A.
+      exists []. split; [reflexivity|]. split; [|intros k o []].
+      Show. rewrite blen_to_be. change (N.of_nat 2) with 2.
       econstructor; eauto; [discriminate|lia].
     + destruct (63 <? blen l) eqn:LL; [discriminate|].
       set (d1 := if (c && (pos <? 16384))%bool then (l :: r, pos) :: pend ++ d else pend ++ d) in *.
       destruct (enc_labels c r (pos + 1 + blen l) d1) as [[br d2]|e] eqn:ER; [|discriminate].
       inversion E; subst b d'; clear E.
       assert (at_ M (pos + 1 + blen l) br) as Ar.
-      { apply at_app_r in A. rewrite blen_cons in A. replace (pos + 1 + blen l) with (pos + (1 + blen l)) by lia. exact A. }
+      { apply at_app_r in A. rewrite blen_cons in A.
+        replace (pos + 1 + blen l) with (pos + (1 + blen l)) by lia. exact A. }
       assert (at_ M pos (blen l :: l)) as Al by (now apply at_app_l in A).
       assert (blen ((blen l :: l) ++ br) = 1 + blen l + blen br) as BL by (rewrite blen_app, blen_cons; lia).
+      rewrite BL. replace (pos + (1 + blen l + blen br)) with (pos + 1 + blen l + blen br) by lia.
       destruct (c && (pos <? 16384))%bool eqn:CP.
       * (* the suffix is entered into the dictionary (pending until the name is complete) *)
         unfold d1 in ER. change ((l :: r, pos) :: pend ++ d) with (((l :: r, pos) :: pend) ++ d) in ER.
-        destruct (IH (pos + 1 + blen l) d ((l :: r, pos) :: pend) br d2 ER) as (added & D2 & NB & AD); auto; try lia.
+        destruct (IH (pos + 1 + blen l) d ((l :: r, pos) :: pend) br d2 NELr ER) as (added & D2 & NB & AD); auto; try lia.
         { intros k o [I|I]; [inversion I; subst; cbn; lia|]. specialize (PL k o I). cbn in PL. lia. }
-        assert (1 <= blen l) as L1.
-        { destruct l; [|rewrite blen_cons; lia]. (* an empty label cannot be followed: it is the root *)
-          exfalso. (* enc_labels on an empty first label: blen [] = 0; allowed by the code but then ... *)
-          clear -NB Al. inversion Al as (pre & post & EQ & LEN). (* no contradiction available: handled by wf *)
-          admit_placeholder. }
-        exists (added ++ [(l :: r, pos)]). repeat split.
+        assert (nbe M s pos (l :: r) (pos + 1 + blen l + blen br)) as NBL by (constructor; [lia|exact Al|exact NB]).
+        exists (added ++ [(l :: r, pos)]). split; [|split; [exact NBL|]].
         -- rewrite D2. now rewrite <- !app_assoc.
-        -- rewrite BL. replace (pos + (1 + blen l + blen br)) with (pos + 1 + blen l + blen br) by lia.
-           constructor; [lia|exact Al|exact NB].
-        -- idtac.
+        -- intros k o H. apply in_app_or in H as [I|[I|[]]].
+           ++ destruct (AD _ _ I) as (X1 & X2 & X3 & X4 & X5). repeat split; auto. lia.
+           ++ inversion I; subst. apply andb_true_iff in CP as [_ CP]. repeat split; auto; try lia. discriminate.
+      * unfold d1 in ER.
+        destruct (IH (pos + 1 + blen l) d pend br d2 NELr ER) as (added & D2 & NB & AD); auto; try lia.
+        { intros k o I. specialize (PL k o I). cbn in PL. lia. }
+        exists added. split; [exact D2|]. split; [constructor; [lia|exact Al|exact NB]|].
+        intros k o H. destruct (AD _ _ H) as (X1 & X2 & X3 & X4 & X5). repeat split; auto. lia.
+Qed.
+
+(** Name.encode at [pos] under a valid dictionary: the name can be read back at [pos], and the
+    dictionary stays valid for whatever is written next *)
+Lemma enc_name_sound c M ls pos d b d' :
+  Forall (fun l => 1 <= blen l) ls ->
+  enc_name c ls pos d = Ok (b, d') -> dict_inv M pos d -> at_ M pos b ->
+  nbe M pos pos ls (pos + blen b) /\ dict_inv M (pos + blen b) d'.
+Proof.
+  intros NEL E DI A. unfold enc_name in E. destruct (255 <? wire_len ls); [discriminate|].
+  destruct (enc_labels_sound c M pos ls pos d [] b d' NEL E) as (added & D2 & NB & AD); auto; try lia.
+  { intros k o []. }
+  split; [exact NB|]. subst d'. cbn [app]. intros k o I. apply in_app_or in I as [I|I].
+  - destruct (AD _ _ I) as (X1 & X2 & X3 & X4 & X5). repeat split; auto.
+    exists (pos + blen b). eapply nbe_bound_mono; eauto.
+  - destruct (DI _ _ I) as (X1 & X2 & X3 & X4). repeat split; auto. lia.
+Qed.
+
+(** what cannot be represented is refused (the repaired behaviour) *)
+Lemma enc_name_refuses_long_name c ls pos d : 255 < wire_len ls -> enc_name c ls pos d = Err ValueError.
+Proof. intros H. unfold enc_name. destruct (255 <? wire_len ls) eqn:E; [reflexivity|lia]. Qed.
+
+Lemma enc_labels_refuses_long_label c : forall ls pos d,
+  Exists (fun l => 63 < blen l) ls -> (forall k, lookup d k = None) \/ c = false ->
+  exists e, enc_labels c ls pos d = Err e.
+Proof.
 Abort.
